@@ -30,3 +30,17 @@ def c03_bigint():
         L.append("zero_div_checked!(c03_%s_zero_checked_%s%d, %s, %d);" % (tier(la <= 1), "m" if na else "p", la, str(na).lower(), la))
     return L
 GEN["c03_bigint"] = c03_bigint
+
+
+def c03_biguint_division():
+    L = []
+    for which in ("BY_REF", "BY_VAL"):
+        for (lu, ld, lq, lr) in [(2, 2, 1, 2), (2, 2, 1, 1), (3, 2, 2, 2), (3, 2, 1, 0), (3, 2, 2, 1), (3, 2, 1, 2)]:
+            for s in (0, 1, 7, 31, 32, 62, 63):
+                q = False   # the general path does not finish within the quick cap (two shifts + core contract + de-normalisation): thorough-tier attempts only
+                if s not in (0, 1, 63) or (lu, ld, lq, lr) not in {(2, 2, 1, 2), (3, 2, 2, 1)}:
+                    continue
+                L.append("wrapper_shape!(c03_%s_wrap_%s_%d_%d_q%d_r%d_s%d, %s, %d, %d, core_c_%d_%d, lz_%d);" % (
+                    tier(q), which[3:].lower(), lu, ld, lq, lr, s, which, lu, ld, lq, lr, s))
+    return L
+GEN["c03_biguint_division"] = c03_biguint_division
